@@ -14,6 +14,10 @@ def gen_dep_fn_scenario(rng: random.Random, steer=None):
     focus = [rng.choice([C_INT, C_INT, C_BOOL, C_STR, C_STR, C_TUPLE, C_DICT]) for _ in range(npos)]
     nmeth = rng.randint(2, 7)
     defs = []
+    # call shapes: an optional trailing positional and / or an optional keyword-only parameter, declared alike by
+    # every method, so that calls of different shapes reach the same value-dependent ranks
+    opt_pos = steer != "literals" and rng.random() < 0.35
+    opt_kw = steer != "literals" and rng.random() < 0.25
     for i in range(nmeth):
         params = []
         for j in range(npos):
@@ -32,6 +36,10 @@ def gen_dep_fn_scenario(rng: random.Random, steer=None):
                 supers = [c for c in range(w.n) if w.tables_cache["sub"][focus[j]][c]]
                 t = ["cls", rng.choice(supers + [C_INT, C_STR])]
             params.append({"name": j, "kind": "pk", "req": True, "ty": t})
+        if opt_pos:
+            params.append({"name": npos, "kind": "pk", "req": False, "ty": ["cls", C_OBJECT]})
+        if opt_kw:
+            params.append({"name": 90, "kind": "ko", "req": False, "ty": ["cls", C_OBJECT]})
         body = ["ret"]
         if rng.random() < 0.3:
             body = ["callNext", [["p", j] for j in range(npos)]]
@@ -54,9 +62,18 @@ def gen_dep_fn_scenario(rng: random.Random, steer=None):
             if focus[j] == C_INT and rng.random() < 0.3:
                 cands = cands + by_cls.get(C_BOOL, [])
             pos.append(rng.choice(cands or list(range(len(args)))))
-        ops.append(["call", pos, []])
+        extra = list(pos)
+        kw = []
+        if opt_pos and rng.random() < 0.5:
+            extra.append(rng.randrange(len(args)))
+        if opt_kw and rng.random() < 0.5:
+            kw = [[90, rng.randrange(len(args))]]
+        ops.append(["call", extra, kw])
         if rng.random() < 0.2:
-            ops.append(["call", list(pos), []])
+            ops.append(["call", list(extra), list(kw)])
+        if (opt_pos or opt_kw) and rng.random() < 0.4:
+            # the same dispatched values in the other shape
+            ops.append(["call", list(pos) if len(extra) > len(pos) or kw else extra + ([rng.randrange(len(args))] if opt_pos else []), []])
     alltys = []
     for d in defs:
         for p in d["params"]:
